@@ -17,6 +17,20 @@ CHECKS = {
             "answer is handled/ignored, returns with state and cursor unchanged and no entry/exit/init call. "
             "The model is tied to hsm.py by a full call-trace correspondence on generated charts.",
             "§8 C02", NOTE_L1),
+    "C22": ("Lean 4 proof by induction on the active path + call-trace correspondence + purity replay",
+            "Theorems for every current state and argument: the faithful model of is_in returns true iff the "
+            "argument is a suffix of (= is or encloses) the current path; child_state returns the spec's child, "
+            "and fails iff the argument does not enclose the current state; both leave state and cursor "
+            "unchanged, make only SEARCH_FOR_SUPER probes, and (generated switch queryRestoresName) leave "
+            "state_name naming the current state. The oracle also replays each script without its queries.",
+            "§8 C22", NOTE_L1),
+    "C23": ("Lean 4 proof over the write sequence of state_name + implementation oracle on every host",
+            "Theorem: for every call trace, decorator setting and number of host reflection calls, the last "
+            "write to state_name/state_fn is the final state of the step (model Instr.nameAfterStep). The "
+            "oracle reads state_name, state_fn and current_state() after every start_at/dispatch on plain, "
+            "instrumented and queued hosts, spied and un-spied. Partial: the write sequence itself is modelled, "
+            "only its last element is compared with the implementation.",
+            "§8 C23", NOTE_L1),
 }
 
 PENDING = {}
